@@ -97,7 +97,7 @@ class World:
 
     # ---- snapshots for non-interference ------------------------------------------------------
     def snapshot_all(self) -> None:
-        self.fps = {id(a): A.value_fp(a) for a in self.everyone()}
+        self.fps = {id(a): {**A.value_fp(a), **A.attr_fp(a)} for a in self.everyone()}
 
     def check_non_interference(self, touched: List[Any], what: str, cls_prefix: str = "C01") -> None:
         t = {id(a) for a in touched}
@@ -107,12 +107,12 @@ class World:
             old = self.fps.get(id(a))
             if old is None:
                 continue
-            new = A.value_fp(a)
+            new = {**A.value_fp(a), **A.attr_fp(a)}
             if new != old:
                 moved = sorted(k for k in set(old) | set(new) if old.get(k) != new.get(k))
                 comp = moved[0].split(":")[0] if moved else "?"
                 kind = {"net": "weights", "opt": "optimizer_state", "hp": "hyperparameters", "book": "bookkeeping",
-                        "hprange": "hp_ranges", "arch": "architecture", "bandit": "sigma_inv"}.get(comp, comp)
+                        "hprange": "hp_ranges", "arch": "architecture", "bandit": "sigma_inv", "attr": "tensor_attr"}.get(comp, comp)
                 self.ctx.report(f"{cls_prefix}/interference:{kind}",
                                 f"{what} changed {len(moved)} components of bystander {self.name(a)} "
                                 f"(first: {moved[:4]})", **self.loc)
@@ -222,6 +222,8 @@ def faithful_copy_diffs(w: World, parent, child, allow_target_resync: bool = Tru
     if info is not None:
         info["target_resynced"] = list(skip_t)
     fa, fc = A.value_fp(parent, include_index=check_index), A.value_fp(child, include_index=check_index)
+    fa.update(A.attr_fp(parent))
+    fc.update(A.attr_fp(child))
     skip_p = tuple(f"net:{t}" for t in skip_t) + (("net:target_params",) if skip_t else ())
     vd = diff_fp(fa, fc, skip_prefixes=skip_p + ("book:mut",) * 0)
     bd = outputs_equal(po, co, skip=skip_t)
@@ -263,6 +265,14 @@ def gen_c01(rng: random.Random, tier: str) -> Dict[str, Any]:
             if o["op"] == "learn" and rng.random() < 0.5:
                 o["op"] = "act"
         ops.insert(0, {"op": "act", "i": 0, "seed": rng.getrandbits(31)})
+    if cfg["algo"] in ("DDPG", "TD3", "MADDPG", "MATD3"):
+        # exploration-noise state (Ornstein-Uhlenbeck process) is agent state too: it advances when the agent acts in training mode and
+        # is reset at episode ends; a clone must own its copy
+        for o in ops:
+            if o["op"] == "learn" and rng.random() < 0.4:
+                o["op"] = rng.choice(["act", "act", "reset_noise"])
+                o.pop("k", None)
+        ops.insert(0, {"op": "act", "i": 0, "seed": rng.getrandbits(31)})
     return {"engine": "world", "prop": "C01", "cfg": cfg, "cfg_seed": rng.getrandbits(31), "pop": rng.choice([1, 2, 3]), "ops": ops}
 
 
@@ -289,6 +299,12 @@ def run_c01(ctx: kernel.Ctx, case: Dict[str, Any]) -> None:
             ctx.log(w.name(ag), "act")
             # acting may legitimately advance the actor's own exploration state; bystanders must not move
             w.check_non_interference([ag], f"op {oi}: get_action on {w.name(ag)}")
+        elif kind == "reset_noise":
+            ag = w.pick(op["i"])
+            ag.reset_action_noise([0])
+            ctx.probe("noise_reset")
+            ctx.log(w.name(ag), "reset_noise")
+            w.check_non_interference([ag], f"op {oi}: reset_action_noise on {w.name(ag)}")
         elif kind == "clone":
             parent = w.pick(op["i"])
             seed_all(op["seed"])
@@ -663,9 +679,31 @@ def check_optimizers_live(w: World, agent, cls_prefix: str, when: str) -> None:
 def gen_c06(rng: random.Random, tier: str) -> Dict[str, Any]:
     cfg = A.gen_agent_cfg(rng)
     cfg["hp"] = rng.choice(["shared", "shared", "private"])
-    cfg["hp_spec"] = rng.choice(["default", "wide", "int_stuck", "at_bounds"])
+    cfg["hp_spec"] = rng.choice(["default", "wide", "int_stuck", "at_bounds", "random", "random"])
     cfg["learn_step"] = 2  # inside every configured learn_step range
+    if cfg["hp_spec"] == "random":
+        # "arbitrary min, max, shrink and grow factors": ranges around the current value, factors on either side of 1 (a shrink factor
+        # above 1 or a grow factor below 1 is unusual but legal - the result must still be the clipped product)
+        def fac(kind):
+            x = rng.random()
+            if x < 0.12:
+                return 1.0
+            if x < 0.3:
+                return round(rng.uniform(1.01, 2.5), 3) if kind == "shrink" else round(rng.uniform(0.3, 0.99), 3)
+            return round(rng.uniform(0.05, 0.99), 3) if kind == "shrink" else round(rng.uniform(1.01, 4.0), 3)
+        cfg["hp_rand"] = {"lr": [round(rng.uniform(0.01, 1.0), 4), round(rng.uniform(1.0, 50.0), 3), fac("shrink"), fac("grow")],
+                          "lr2": [round(rng.uniform(0.01, 1.0), 4), round(rng.uniform(1.0, 50.0), 3), fac("shrink"), fac("grow")],
+                          "bs": [rng.randint(0, 6), rng.randint(0, 24), fac("shrink"), fac("grow")]}
     ops = []
+    if rng.random() < 0.35:
+        # the parameter object on its own, including ranges no learning rate would have (negative, straddling zero)
+        lo = rng.choice([-5.0, -1.0, -0.1, 0.0, 1e-4, 0.5, 3.0])
+        hi = lo + rng.choice([0.0, 1e-3, 0.9, 7.0])
+        dt = rng.choice(["float", "float", "int"])
+        if dt == "int":
+            lo, hi = float(int(lo)), float(int(lo) + rng.randint(0, 9))
+        ops.append({"op": "param_walk", "min": lo, "max": hi, "shrink": rng.choice([0.8, 0.5, 0.99, 1.0, 1.4]), "grow": rng.choice([1.2, 3.0, 1.01, 1.0, 0.7]),
+                    "dtype": dt, "start": rng.random(), "k": rng.randint(1, 12), "seed": rng.getrandbits(31)})
     for _ in range(rng.randint(1, 8 if tier == "quick" else 40)):
         x = rng.random()
         s = rng.getrandbits(31)
@@ -700,6 +738,13 @@ def _c06_hp(cfg):
         kw["batch_size"] = RLParameter(min=2, max=9, dtype=int, shrink_factor=0.9, grow_factor=1.1)  # int(v*1.1) == v for small v
         kw["learn_step"] = RLParameter(min=1, max=3, dtype=int)  # cfg["learn_step"] is set to 2 for this spec
         kw[lr_names[0]] = RLParameter(min=cfg["lr"] * 0.9, max=cfg["lr"] * 1.5)
+    elif spec == "random":
+        r = cfg["hp_rand"]
+        for n_, key, cur in zip(lr_names, ("lr", "lr2"), (cfg["lr"], cfg["lr"] * 2)):
+            a, b, sh, gr = r[key]
+            kw[n_] = RLParameter(min=cur * a, max=cur * b, shrink_factor=sh, grow_factor=gr)
+        d, u, sh, gr = r["bs"]
+        kw["batch_size"] = RLParameter(min=max(1, cfg["batch_size"] - d), max=cfg["batch_size"] + u, dtype=int, shrink_factor=sh, grow_factor=gr)
     else:  # at_bounds: current value equals min or max
         for n_ in lr_names:
             kw[n_] = RLParameter(min=cfg["lr"] * (2 if n_ == "lr_critic" else 1), max=cfg["lr"] * (2 if n_ == "lr_critic" else 1) * 1.1)
@@ -771,6 +816,35 @@ def run_c06(ctx: kernel.Ctx, case: Dict[str, Any]) -> None:
             w.pop = list(new_pop)
             # ghosts and clones of earlier generations must not move (the mutated agents themselves are the targets)
             w.check_non_interference(w.pop, f"op {oi}: RL-hyperparameter mutation of the population", cls_prefix="C06")
+        elif op["op"] == "param_walk":
+            from agilerl.algorithms.core.registry import RLParameter
+
+            dt = int if op["dtype"] == "int" else float
+            prm = RLParameter(min=dt(op["min"]), max=dt(op["max"]), shrink_factor=op["shrink"], grow_factor=op["grow"], dtype=dt)
+            prm.value = dt(op["min"] + op["start"] * (op["max"] - op["min"]))
+            if dt is int:
+                prm.value = int(min(max(prm.value, prm.min), prm.max))
+            seed_all(op["seed"])
+            for j in range(op["k"]):
+                old = prm.value
+                new = prm.mutate()
+                n_mut += 1
+                ctx.probe("param_walk_step")
+                if prm.min < 0:
+                    ctx.probe("negative_range")
+                cands = {dt(min(max(old * f, prm.min), prm.max)) for f in (prm.shrink_factor, prm.grow_factor)}
+                ctx.log("param", "mutate", {"old": old, "new": new})
+                if new is not prm.value and new != prm.value:
+                    ctx.report("C06/value_not_own_times_factor", f"RLParameter.mutate returned {new!r} but stores {prm.value!r}", param_kind=op["dtype"], algo="RLParameter")
+                if not any(abs(new - c) <= 1e-12 * max(1.0, abs(c)) for c in cands):
+                    ctx.report("C06/value_not_own_times_factor", f"RLParameter(min={prm.min}, max={prm.max}, shrink={prm.shrink_factor}, grow={prm.grow_factor}, {op['dtype']}): "
+                                                                 f"{old!r} -> {new!r}; value x factor clipped to the range gives {sorted(cands)}", param_kind=op["dtype"], algo="RLParameter")
+                if not (prm.min <= new <= prm.max):
+                    ctx.report("C06/out_of_range", f"RLParameter(min={prm.min}, max={prm.max}, shrink={prm.shrink_factor}, grow={prm.grow_factor}): {old!r} -> {new!r} leaves the range",
+                               algo="RLParameter")
+                    break
+                if type(new) is not dt:
+                    ctx.report("C06/dtype", f"RLParameter {op['dtype']}: mutate returned {type(new).__name__}", algo="RLParameter")
         elif op["op"] == "clone":
             p = w.pick(op["i"])
             c = p.clone(index=max(a.index for a in w.everyone()) + 1)
@@ -1407,6 +1481,26 @@ def _expected_loss(agent, cfg, batch, seed) -> Optional[float]:
             qn = torch.min(agent.critic_target_1(nobs, na), agent.critic_target_2(nobs, na))
             y = r + (1 - d) * agent.gamma * qn
             return float(torch.nn.functional.mse_loss(agent.critic_1(obs, a), y) + torch.nn.functional.mse_loss(agent.critic_2(obs, a), y))
+        if algo in ("MADDPG", "MATD3"):
+            # centralised critics: every agent's critic sees all observations and all actions; next actions come from the target actors
+            states, actions, rewards, next_states, dones = batch
+            st = agent.preprocess_observation(states)
+            ns = agent.preprocess_observation(next_states)
+            ids = list(agent.agent_ids)
+            na = [agent.actor_targets[i](ns[aid]) for i, aid in enumerate(ids)]
+            ss, sns = agent.stack_critic_observations(st), agent.stack_critic_observations(ns)
+            sa, sna = torch.cat([actions[aid] for aid in ids], dim=1), torch.cat(na, dim=1)
+            out = {}
+            for i, aid in enumerate(ids):
+                r, d = rewards[aid], dones[aid]
+                if algo == "MADDPG":
+                    y = r + (1 - d) * agent.gamma * agent.critic_targets[i](sns, sna)
+                    out[aid] = float(torch.nn.functional.mse_loss(agent.critics[i](ss, sa), y))
+                else:
+                    qn = torch.min(agent.critic_targets_1[i](sns, sna), agent.critic_targets_2[i](sns, sna))
+                    y = r + (1 - d) * agent.gamma * qn
+                    out[aid] = float(torch.nn.functional.mse_loss(agent.critics_1[i](ss, sa), y) + torch.nn.functional.mse_loss(agent.critics_2[i](ss, sa), y))
+            return out
     return None
 
 
@@ -1453,7 +1547,7 @@ def run_c08(ctx: kernel.Ctx, case: Dict[str, Any]) -> None:
                 nb = A.make_batch(ag, cfg, kernel.derive(s, "n"), op["done"], batch_size=bs)
                 nb_t = A.make_batch(twin, cfg, kernel.derive(s, "n"), op["done"], batch_size=bs, noise_next_where_done=True)
             want_loss = None
-            if algo in ("DQN", "CQN", "DDPG", "TD3"):
+            if algo in ("DQN", "CQN", "DDPG", "TD3", "MADDPG", "MATD3"):
                 want_loss = _expected_loss(ag, cfg, batch, s)
             seed_all(s)
             if algo in ("DDPG", "TD3"):
@@ -1468,7 +1562,15 @@ def run_c08(ctx: kernel.Ctx, case: Dict[str, Any]) -> None:
             n_learn += 1
             ctx.log("subject", "learn", {"j": j})
             # (2) loss value
-            if want_loss is not None:
+            if isinstance(want_loss, dict):
+                ctx.probe("ma_critic_loss_recomputed")
+                for aid, wl in want_loss.items():
+                    got = out[aid][1]
+                    if abs(float(got) - wl) > 1e-4 * max(1.0, abs(wl)):
+                        ctx.report("C08/loss_value", f"op {oi} step {j}: learn() returned critic loss {float(got)!r} for {aid}; the centralised-critic loss with target "
+                                                     f"r + gamma (1-done) Q_target(s', pi_target(s')) evaluated on the same networks and batch is {wl!r}", **w.loc)
+                        break
+            elif want_loss is not None:
                 got = out if algo in ("DQN", "CQN") else out[1]
                 if got is not None and abs(float(got) - want_loss) > 1e-4 * max(1.0, abs(want_loss)):
                     ctx.report("C08/loss_value", f"op {oi} step {j}: learn() returned loss {float(got)!r}; the algorithm's loss with target r + gamma (1-done) Q_target(s') "
